@@ -44,7 +44,9 @@ ANCHORS = ["EEEEEEEEEEEEEEEEEEKG", "KEEEEK", "EKKKKEE", "GKKKKG", "EKKKGE", "GGS
            "EKEKEKEKEKEKEKEKEKEKEKEKEKEKEKEKEKEKEKEKEKEKEKEKEK",
            "EEEEEEEEEEEEEEEEEEEEEEEEEKKKKKKKKKKKKKKKKKKKKKKKKK",
            "MDVFMKGLSKAKEGVVAAAEKTKQGVAEAAGKTKEGVLYVGSKTKEGVVHGVATVAEKTKEQVTNVGGAVVTGVTAVAQKTVEGAGSIAAATGFVKKDQLGKNEEGAPQEGILEDMPVDPDNEAYEMPSEEGYQDYEPEA",
-           "GGGGGGGGGGGGGGGGGGGGKKKKEEEE", "GGGGGGGGGKKKKGGGGGGGGGGGEEEEGGG"]
+           "GGGGGGGGGGGGGGGGGGGGKKKKEEEE", "GGGGGGGGGKKKKGGGGGGGGGGGEEEEGGG",
+           "Q" * 239 + "K", "Q" * 120 + "E" + "Q" * 140, "S" * 200 + "K" + "S" * 250 + "E", "G" * 60 + "K", "N" * 399 + "D",
+           "KKGGGGGK", "EKKGGKE", "EGGGGGE", "KGEEEEGGK"]
 
 
 def cases(tier, seed):
